@@ -206,10 +206,10 @@ CHECKS = {
              "classes (missing/directory/non-UTF-8 input, unwritable or pre-existing --output, pre-existing default PDF path, "
              "bad rate folder, absurd --year, /dev/full stdout): a failing run must exit non-zero without a panic, print "
              "nothing on stdout and leave every file untouched. "
-             "Degenerate days (several zero / tiny lines of one security on one date) and RSU rows at the calendar extremes are directed classes; a library call or CLI run that stays silent for the watchdog three times in a row is reported as non-termination (bounded progress).",
+             "Degenerate days (several zero / tiny lines of one security on one date) and RSU rows at the calendar extremes are directed classes; a library call or CLI run that stays silent for the watchdog three times in a row is reported as non-termination (bounded progress). A 'big echo' class puts 28-29 digit totals in currencies with 0/2/3/4 minor units on non-trade lines of a small GBP holding, so that the formatters (plain, PDF hook) get to print what the calculation survives (found F21).",
         note="Open finding F8 (rust_decimal overflow panic in the extreme regime) is matched on regime+library+kind; any other "
              "panic is reported. Hang detection is a wall-clock watchdog whose firing is inconclusive. MCP no-answer cases are C20's.",
-        ref="DESIGN.md §3 C15, §4 F8/F14/F18"),
+        ref="DESIGN.md §3 C15, §4 F8/F14/F18, §10.2 F21"),
     "C16": dict(
         technique="runtime monitor: byte comparison of outputs across 16 fresh processes per input and command; H3 hook "
                   "recording/permuting every HashMap drain order at the library boundary; order predicates on every report",
